@@ -191,7 +191,8 @@ OnSendDone(mm, ev) ==
            ELSE IF kind = "chunk" /\ j > 0 /\ mm.snd[j].kind = "stream0"
              THEN [mm EXCEPT !.snd[j].owed = IF ev.k = "ok" /\ @ > mm.snd[i].plen THEN @ - mm.snd[i].plen ELSE 0]
            ELSE mm
-      m0 == [m EXCEPT !.snd[i].st = "done"]
+      \* a chunk beyond the declared size aborts the connection (C08 wants exactly that): a cause of its end
+      m0 == [m EXCEPT !.snd[i].st = "done", !.term = @ \/ (kind = "chunk" /\ ev.k = "Encode")]
   IN
   IF ev.k \in {"ok", "receipt"} THEN
      IF want = "NONE" THEN m0
